@@ -215,7 +215,13 @@ def for_property(prop: str) -> list[Variant]:
                 pd = os.path.join(sroot, sid, "patch.diff")
                 if sid.startswith(prop) and os.path.isfile(pd) and _applies(pd):
                     vs.append(Variant(f"{prop}-s-{sid}", "R", "mutant", [], diff=pd, note="seeded change (sub-agent)"))
-        # renaming any private helper everywhere keeps behaviour: rules must find their anchors
+        # breaking edits on top of a refactored tree (<PROP>__<rule>__<name>.diff): each must be reported
+        mroot = os.path.join(os.path.dirname(TWINS), "mutants")
+        if os.path.isdir(mroot):
+            for fn in sorted(os.listdir(mroot)):
+                if fn.endswith(".diff") and fn.startswith(prop + "__"):
+                    _, rule, nm = fn[:-5].split("__", 2)
+                    vs.append(Variant(f"{prop}-m2-{nm}", rule, "mutant", [], diff=os.path.join(mroot, fn), note="breaking edit of a refactored tree"))
         for name in private_function_names():
             new = name + "_impl" if not name.startswith("__") else name + "_impl"
             vs.append(Variant(f"{prop}-r-{name.strip('_')}", "", "twin", [], rename=(name, new), note="private helper renamed"))
